@@ -36,6 +36,22 @@ OUTSIDE = "ill-framed payloads (K symbols inside the payload, missing END framin
           "longer than the depth allows (~ (K-8)*4 bytes); a DATA header not followed by DPPSTART but directly by HPSTART"
 
 
+# FINDINGS (DataPacketReceiver.CHECK_CRC32, luna/gateware/usb/usb3/link/data.py; fixed in /repo by 4c60ef1 and 34d2b38)
+#  1. `m.next = "WAIT_FOR_HPSTART"` was indented under `m.Else()`: after a *good* verdict the FSM stayed in
+#     CHECK_CRC32, compared the following word(s) again and reported packet_bad one cycle later (packet_good forever
+#     for a zero-length payload).  Seen as verdict_time / verdict_once in every framing.
+#  2. CHECK_CRC32 did not look at sink.valid: with an invalid cycle between the last payload word and the CRC word
+#     (e.g. after SKP removal) the verdict was computed from junk, one cycle early (verdict_time / verdict_value,
+#     framings *_gap_before_crc).
+#  3. data_length = 0: no Switch case matched previous_valid == 0, data_to_check was 0 == CRC32 register's reset
+#     output, so a zero-length payload with a corrupted CRC32 was reported good (verdict_value, cover bad_crc32
+#     vacuous in framing zlp).
+#  Not a finding (reading kept): for a header with corrupted CRC16/CRC5 nothing is reported; the check demands only
+#  "never good, no payload output".
+#  Code reading only, outside the bounds: a K symbol in the *last* payload word strobes packet_bad and still enters
+#  CHECK_CRC32 (the later m.next wins), giving a second verdict.
+
+
 def popcount4(v):
     return v[0] + v[1] + v[2] + v[3]
 
